@@ -125,6 +125,18 @@ def quote_macros():
     j = body.index("];\n")
     body = body[:j] + body[j + 3:]
     body = "\n".join(l for l in body.split("\n") if not l.strip().startswith("///"))
+    # MODELLED (not the real macro text): the repetition `#(#var)*` over one variable.  The real expansion is a `while true`
+    # loop that cannot carry an invariant; it is replaced by one call whose contract says "appends the tokens of every
+    # element, in order" (prelude/tokens.rs push_all).  Listed in every evidence file as an assumption.
+    anchor = "    // A repetition with no separator.\n    ($tokens:ident $b3:tt $b2:tt $b1:tt (#) ( $($inner:tt)* ) * $a3:tt) => {{"
+    if body.count(anchor) != 1:
+        raise Undecided("quote-%s: repetition arm not found where expected" % ver)
+    patched = ("    // [verif model] single-variable repetition\n"
+               "    ($tokens:ident $b3:tt $b2:tt $b1:tt (#) ( # $var:ident ) * $a3:tt) => {\n"
+               "        $crate::__private::push_all(&mut $tokens, &$var);\n"
+               "    };\n")
+    k = body.index(anchor)
+    body = body[:k] + patched + body[k:]
     return body, cands[0], sha(src.encode())
 
 
@@ -377,6 +389,8 @@ def emit_fn(u, file, nm, block):
     proof_lines = []
     closures = {}
     etas = []
+    loops_spec = {}
+    uses = []
     nshards = 0
     mode = None
     cur = None
@@ -406,6 +420,14 @@ def emit_fn(u, file, nm, block):
             cur = {"ord": ordn, "let": let, "lines": []}
             closures[ordn] = cur
             mode = "closure"
+        elif s.startswith("//@uses"):
+            uses.append(s[len("//@uses"):].strip())
+            mode = None
+        elif s.startswith("//@loop"):
+            parts = s.split()
+            cur = {"ord": int(parts[1]), "lines": []}
+            loops_spec[cur["ord"]] = cur
+            mode = "loop"
         elif s.startswith("//@shard"):
             nshards = int(s.split()[1])
             mode = None
@@ -423,7 +445,7 @@ def emit_fn(u, file, nm, block):
                 spec_lines.append(l)
             elif mode == "proof":
                 proof_lines.append(l)
-            elif mode == "closure":
+            elif mode == "closure" or mode == "loop":
                 cur["lines"].append(l)
             elif s:
                 raise Undecided("unit %s: stray text in //@fn %s: %r" % (u.name, nm, s))
@@ -540,6 +562,9 @@ def emit_fn(u, file, nm, block):
         return b.count(b"\n", 0, off) + 1
 
     u.emit("{", dict(info_base, part="body", src=(file, src_line(body_open))))
+    if uses and "#[verifier::external_body]" not in attrs:
+        u.emit("broadcast use {%s};" % ", ".join(uses), dict(info_base, part="proof"))
+        u.edits.append("%s::%s: `broadcast use` of proved lemmas inserted after the opening brace" % (file, nm))
     if proof_lines:
         u.emit("proof {", dict(info_base, part="proof"))
         for l in proof_lines:
@@ -561,6 +586,18 @@ def emit_fn(u, file, nm, block):
         if not rc["body_is_block"]:
             inserts.append((rc["body_start"], rc["body_start"], "open", c, rc))
             inserts.append((rc["body_end"], rc["body_end"], "close", c, rc))
+    real_loops = it.get("loops", [])
+    for ordn, lp in loops_spec.items():
+        if ordn >= len(real_loops):
+            raise Undecided("anchor lost: %s::%s has %d loops, contract names loop %d" % (file, nm, len(real_loops), ordn))
+        if "#[verifier::external_body]" in attrs:
+            continue
+        off = real_loops[ordn]["body_open"]
+        head = [l for l in lp["lines"] if not l.strip().startswith("@body ")]
+        inner = [l.strip()[len("@body "):] for l in lp["lines"] if l.strip().startswith("@body ")]
+        inserts.append((off, off, "loopspec", {"ord": ordn, "lines": head, "let": None}, None))
+        if inner:
+            inserts.append((off + 1, off + 1, "loopbody", {"ord": ordn, "lines": inner, "let": None}, None))
     inserts.sort(key=lambda x: (x[0], 0 if x[2] == "close" else 1))
     out = []  # list of (text, src_offset or None, info_extra)
     for (a, e, kind, c, rc) in inserts:
@@ -572,6 +609,14 @@ def emit_fn(u, file, nm, block):
             out.append((hdr, None, {"part": "closure-header", "closure": c["ord"]}))
             u.edits.append("%s::%s: closure #%d header `%s` replaced by annotated header" % (file, nm, c["ord"], b[a:e].decode()))
             pos = e
+        elif kind == "loopspec":
+            out.append(("\n" + "\n".join(c["lines"]).strip("\n") + "\n", None, {"part": "loop-spec", "loop": c["ord"]}))
+            u.edits.append("%s::%s: loop #%d: invariant / decreases clauses inserted before the loop body" % (file, nm, c["ord"]))
+            pos = a
+        elif kind == "loopbody":
+            out.append(("\n" + "\n".join(c["lines"]) + "\n", None, {"part": "loop-spec", "loop": c["ord"]}))
+            u.edits.append("%s::%s: loop #%d: ghost `broadcast use` of proved lemmas inserted at the start of the loop body" % (file, nm, c["ord"]))
+            pos = a
         elif kind == "open":
             out.append((" {", None, {"part": "closure-brace"}))
             u.edits.append("%s::%s: closure #%d body wrapped in braces" % (file, nm, c["ord"]))
